@@ -11,6 +11,12 @@ trap 'git -C /repo worktree remove --force "$wt" >/dev/null 2>&1' EXIT
 git -C "$wt" apply "$d/patch.diff" || { echo "CONFIRM $(basename $d): patch does not apply"; exit 3; }
 bt=$(SEED_JOBS=${SEED_JOBS:-12} "$here/tools/seedbuild.sh" "$wt" | grep "BUILDTEST" | tr '\n' ' ')
 base=/tmp/crabwt_base
+# pristine build of /repo HEAD for the "passes without the change" half (scratch, not needed by any registered check):
+# (re)created on demand, remove it with `git -C /repo worktree remove --force /tmp/crabwt_base` when done
+if [ ! -f "$base/_build/lib/libCrab.a" ] || [ "$(git -C "$base" rev-parse HEAD 2>/dev/null)" != "$(git -C /repo rev-parse HEAD)" ]; then
+  git -C /repo worktree remove --force "$base" >/dev/null 2>&1; rm -rf "$base"
+  git -C /repo worktree add -q --detach "$base" HEAD && SEED_JOBS=${SEED_JOBS:-12} "$here/tools/seedbuild.sh" "$base" >/dev/null
+fi
 demo(){ t=$1; shift; g++ -std=c++14 -w -O0 -I$t/include -I$t/_build/include -I$t/tests "$@" "$d/demo.cpp" $t/_build/lib/libCrab.a -lgmp -o $wt.demo 2>$wt.demo.err || { echo compile-failed; return; }; timeout 300 $wt.demo >/dev/null 2>&1; echo $?; }
 dm=$(demo "$wt" "${@:1}"); dp=$(demo "$base" "${@:1}")
 rm -f $wt.demo $wt.demo.err
